@@ -8,6 +8,22 @@
 (***************************************************************************)
 EXTENDS EngineDDL, SqliteCatalog
 
+\* the type-setting methods of ColumnDef (column_methods.json): the type each is documented to set
+ColMethod == JsonDeserialize("column_methods.json")
+ColMethodOk(c) ==
+  "m" \notin DOMAIN c \/
+  ("type" \in DOMAIN c /\ c.m \in DOMAIN ColMethod /\
+   LET t == ColMethod[c.m] IN
+     /\ t.k = c.type.k
+     /\ \A i \in DOMAIN t.need : t.need[i] \in DOMAIN c.type
+     /\ \A i \in DOMAIN t.forbid : t.forbid[i] \notin DOMAIN c.type
+     /\ (c.m = "binary" => c.type.n = 1))
+DeclMethodsOk(d) ==
+  \* "wheres": an index predicate given in two and_where calls; "where" must be their conjunction
+  /\ ("wheres" \in DOMAIN d => "where" \in DOMAIN d /\ Len(d.wheres) = 2 /\ d.where.k = "bin" /\ d.where.op = "And" /\ d.where.l = d.wheres[1] /\ d.where.r = d.wheres[2])
+  /\ ("cols" \in DOMAIN d => \A i \in DOMAIN d.cols : ColMethodOk(d.cols[i]))
+  /\ ("ops" \in DOMAIN d => \A i \in DOMAIN d.ops : "col" \in DOMAIN d.ops[i] => ColMethodOk(d.ops[i].col))
+
 UpSeq(ss) == [i \in DOMAIN ss |-> UpperStr(ss[i])]
 \* specifications dialect B shows for a declared column, in declaration order
 ExpSpecs(B, c) ==
@@ -30,15 +46,37 @@ FkRest(f) ==
   LET A(a) == CASE a = "Restrict" -> <<"RESTRICT">> [] a = "Cascade" -> <<"CASCADE">> [] a = "SetNull" -> <<"SET", "NULL">> [] a = "SetDefault" -> <<"SET", "DEFAULT">> [] OTHER -> <<"NO", "ACTION">> IN
   (IF "on_delete" \in DOMAIN f THEN <<"ON", "DELETE">> \o A(f.on_delete) ELSE <<>>) \o (IF "on_update" \in DOMAIN f THEN <<"ON", "UPDATE">> \o A(f.on_update) ELSE <<>>)
 FkElem(f) == [kind |-> "fk", name |-> IF "name" \in DOMAIN f THEN f.name ELSE "", from |-> f.from_cols, table |-> <<f.to_table>>, to |-> f.to_cols, rest |-> FkRest(f)]
-IdxColsExp(cs) == [i \in DOMAIN cs |-> [n |-> cs[i].n, o |-> IF "o" \in DOMAIN cs[i] THEN UpperStr(cs[i].o) ELSE ""]]
-IndexElem(x) == [kind |-> IF "primary" \in DOMAIN x /\ x.primary THEN "primary" ELSE IF "unique" \in DOMAIN x /\ x.unique THEN "unique" ELSE "index",
-                 name |-> IF "name" \in DOMAIN x THEN x.name ELSE "", cols |-> IdxColsExp(x.cols)]
+IdxColsExp(B, cs) == [i \in DOMAIN cs |-> [n |-> cs[i].n, o |-> IF "o" \in DOMAIN cs[i] THEN UpperStr(cs[i].o) ELSE "",
+                                            pfx |-> IF "p" \in DOMAIN cs[i] /\ B = "mysql" THEN <<NatToStr(cs[i].p)>> ELSE <<>>]]
+IndexElem(B, x) == [kind |-> IF "primary" \in DOMAIN x /\ x.primary THEN "primary" ELSE IF "unique" \in DOMAIN x /\ x.unique THEN "unique" ELSE "index",
+                 name |-> IF "name" \in DOMAIN x THEN x.name ELSE "", cols |-> IdxColsExp(B, x.cols)]
 StripRest(p) == [kind |-> p.kind, name |-> p.name, cols |-> p.cols]
 \* MySQL writes the index type of a table-level key (USING BTREE / HASH after the name; FULLTEXT as a prefix)
 IndexTypeOk(B, x, p) ==
   LET ty == IF "index_type" \in DOMAIN x THEN x.index_type ELSE "" IN
   p.kind = "primary" \/ B # "mysql" \/
   (p.using = (CASE ty = "BTree" -> "BTREE" [] ty = "Hash" -> "HASH" [] OTHER -> "") /\ p.fulltext = (ty = "FullText"))
+
+\* the table options the text after the element list declares (MySQL: COMMENT, ENGINE, COLLATE,
+\* [DEFAULT] CHARSET | CHARACTER SET, each with an optional "="), as a sequence of <<name, value>>
+RECURSIVE ParseOpts(_, _)
+ParseOpts(o, i) ==
+  LET n == Len(o)
+      OVal(j) == IF j <= n /\ o[j] = "=" THEN j + 1 ELSE j
+      OOne(name, j) == IF OVal(j) > n THEN <<<<"?", name>>>> ELSE <<<<name, o[OVal(j)]>>>> \o ParseOpts(o, OVal(j) + 1)
+  IN IF i > n THEN <<>>
+     ELSE IF o[i] \in {"COMMENT", "ENGINE", "COLLATE", "CHARSET"} THEN OOne(o[i], i + 1)
+     ELSE IF o[i] = "CHARACTER" /\ i < n /\ o[i + 1] = "SET" THEN OOne("CHARSET", i + 2)
+     ELSE IF o[i] = "DEFAULT" /\ i < n /\ o[i + 1] \in {"CHARSET", "CHARACTER", "COLLATE"} THEN ParseOpts(o, i + 1)
+     ELSE <<<<"?", o[i]>>>> \o ParseOpts(o, i + 1)
+ExpOpts(B, d) ==
+  (IF B = "mysql" /\ "comment" \in DOMAIN d THEN {<<"COMMENT", d.comment>>} ELSE {})
+  \cup (IF "engine" \in DOMAIN d THEN {<<"ENGINE", UpperStr(d.engine)>>} ELSE {})
+  \cup (IF "collate" \in DOMAIN d THEN {<<"COLLATE", UpperStr(d.collate)>>} ELSE {})
+  \cup (IF "character_set" \in DOMAIN d THEN {<<"CHARSET", UpperStr(d.character_set)>>} ELSE {})
+OptionReasons(B, d, p) ==
+  LET po == ParseOpts(p.options, 1) IN
+  IF {po[i] : i \in DOMAIN po} = ExpOpts(B, d) /\ Len(po) = Cardinality(ExpOpts(B, d)) THEN {} ELSE {"table_options_differ"}
 
 CreateTableReasons(B, d, p) ==
   IF p.kind # "create_table" THEN {"not_a_create_table"}
@@ -48,9 +86,10 @@ CreateTableReasons(B, d, p) ==
            nc == Len(d.cols)  ni == Len(ix)  nf == Len(fk)  nk == Len(ck)
        IN (IF p.name = <<d.table>> THEN {} ELSE {"table_name_differs"})
           \cup (IF p.if_not_exists = ("if_not_exists" \in DOMAIN d /\ d.if_not_exists) THEN {} ELSE {"if_not_exists_differs"})
+          \cup OptionReasons(B, d, p)
           \cup (IF Len(p.elems) # nc + ni + nf + nk THEN {"element_count_differs"}
                 ELSE UNION {ColumnReasons(B, d.cols[i], p.elems[i]) : i \in 1..nc}
-                     \cup (IF \A i \in 1..ni : p.elems[nc + i].kind \in {"primary", "unique", "index"} /\ StripRest(p.elems[nc + i]) = IndexElem(ix[i]) /\ IndexTypeOk(B, ix[i], p.elems[nc + i]) THEN {} ELSE {"table_indexes_differ"})
+                     \cup (IF \A i \in 1..ni : p.elems[nc + i].kind \in {"primary", "unique", "index"} /\ StripRest(p.elems[nc + i]) = IndexElem(B, ix[i]) /\ IndexTypeOk(B, ix[i], p.elems[nc + i]) THEN {} ELSE {"table_indexes_differ"})
                      \cup (IF \A i \in 1..nf : p.elems[nc + ni + i] = FkElem(fk[i]) THEN {} ELSE {"foreign_keys_differ"})
                      \cup (IF \A i \in 1..nk : p.elems[nc + ni + nf + i] = [kind |-> "check", e |-> Canon(B, ck[i])] THEN {} ELSE {"checks_differ"}))
 
@@ -66,8 +105,8 @@ ExpActions(B, d) ==
                       CASE o.col.specs[j].k = "NotNull" -> <<[k |-> "set_not_null", name |-> o.col.name]>>
                         [] o.col.specs[j].k = "Null" -> <<[k |-> "drop_not_null", name |-> o.col.name]>>
                         [] o.col.specs[j].k = "Default" -> <<[k |-> "set_default", name |-> o.col.name, e |-> CanonVal(o.col.specs[j].v)]>>
-                        [] o.col.specs[j].k = "Unique" -> <<[k |-> "add_constraint", c |-> [kind |-> "unique", name |-> "", cols |-> <<[n |-> o.col.name, o |-> ""]>>]]>>
-                        [] o.col.specs[j].k = "PrimaryKey" -> <<[k |-> "add_constraint", c |-> [kind |-> "primary", name |-> "", cols |-> <<[n |-> o.col.name, o |-> ""]>>]]>>
+                        [] o.col.specs[j].k = "Unique" -> <<[k |-> "add_constraint", c |-> [kind |-> "unique", name |-> "", cols |-> <<[n |-> o.col.name, o |-> "", pfx |-> <<>>]>>]]>>
+                        [] o.col.specs[j].k = "PrimaryKey" -> <<[k |-> "add_constraint", c |-> [kind |-> "primary", name |-> "", cols |-> <<[n |-> o.col.name, o |-> "", pfx |-> <<>>]>>]]>>
                         [] o.col.specs[j].k = "Check" -> <<[k |-> "add_constraint", c |-> [kind |-> "check", e |-> Canon(B, o.col.specs[j].e)]]>>
                         [] OTHER -> <<>>])
       [] o.k = "rename_column" -> <<[k |-> "rename_column", from |-> o.from, to |-> o.to]>>
@@ -98,7 +137,7 @@ DdlReasons(B, d, sql) ==
       [] d.stmt = "index_create" ->
            IF p.kind # "create_index" THEN {"not_a_create_index"}
            ELSE (IF p.name = d.name /\ p.table = <<d.table>> THEN {} ELSE {"index_name_or_table_differs"})
-                \cup (IF p.cols = IdxColsExp(d.cols) THEN {} ELSE {"index_columns_differ"})
+                \cup (IF p.cols = IdxColsExp(B, d.cols) THEN {} ELSE {"index_columns_differ"})
                 \cup (IF p.unique = ("unique" \in DOMAIN d /\ d.unique) THEN {} ELSE {"index_uniqueness_differs"})
                 \cup (IF p.if_not_exists = ("if_not_exists" \in DOMAIN d /\ d.if_not_exists /\ B = "pg") THEN {} ELSE {"if_not_exists_differs"})
                 \cup (LET ty == IF "index_type" \in DOMAIN d THEN d.index_type ELSE ""
